@@ -4,6 +4,7 @@ import IweModel.Model.Squash
 import IweModel.Model.Paths
 import IweModel.Model.Actions
 import IweModel.Model.Hints
+import IweModel.Model.Symbols
 
 namespace Iwe.GraphOps
 open Iwe Codec
@@ -41,7 +42,16 @@ def stateS (want : List String) (g : Graph) (nlines : List (String × Nat)) : Se
       .list (.str asker :: (sortKeys ((Completion.linkCompletions g asker).map fun it =>
         it.label ++ "\n" ++ it.sortText ++ "\n" ++ it.insertText ++ "\n" ++ it.filterText)).map Sexp.str))
     else .list [.atom "completions", .atom "skipped"]
-  .list [.atom "state", arena, keysS, titles, md, brefs, irefs, ranges, atS, metas, paths, spaths, hints, completions]
+  let symS (s : Symbols.Symbol) : Sexp := .list [.str s.name, .atom (if s.namespaceKind then "ns" else "obj"), .str s.key, natS s.line]
+  -- document symbols of every note, and the workspace symbols of the empty query
+  let symbols := if want.contains "symbols" then
+      let sps := Paths.searchPaths g
+      let ps := Paths.graphToPaths g
+      Sexp.list (.atom "symbols"
+        :: .list (.atom "workspace" :: (Symbols.workspaceSymbols g (Paths.globalSearch sps (sps.map fun _ => 0) true)).map symS)
+        :: keys.map fun k => .list (.str k :: (Symbols.documentSymbolsOf g ps k).map symS))
+    else .list [.atom "symbols", .atom "skipped"]
+  .list [.atom "state", arena, keysS, titles, md, brefs, irefs, ranges, atS, metas, paths, spaths, hints, completions, symbols]
 
 def entry? : Sexp → Except String (String × Nat × Document)
   | .list [.str k, n, d] => do return (k, ← nat? n, ← document? d)
